@@ -13,9 +13,10 @@ intervals of the real code (`/repo/src/verif.rs` points):
                  output written, hand-over, reclaim), taken atomically here; `Snel.Model.Compact`
                  refines it for crash points
 * `crash`      — process kill: every volatile component is lost
-* `restart`    — `ShardContext::new`: live list from numeric directory names, allocator from
-                 them, WAL writer position from the files, WAL replay of every log into the
-                 memtable
+* `restart`    — `ShardContext::new`: allocator from the numeric directory names, live list =
+                 those of them the segment index names (all of them while no index file
+                 exists), WAL writer position from the files, WAL replay of every log into
+                 the memtable
 
 Reads (`visible`, `count`) model what `scan` sees: active memtable, non-empty passive buffers,
 and every segment in `live ∪ in-flight` whose files exist.
@@ -55,6 +56,10 @@ structure Shard where
   /-- a compaction output reused a label of this lifetime: per-label caches may be stale
   (finding C05-stale-cache-on-segment-id-reuse); reads are not compared from then on -/
   tainted : Bool := false
+  /-- a kill inside a segment write happened while no `segments.idx` existed: the incomplete
+  directory is registered by the next index rebuild (`recover_from_disk` takes any directory with
+  a `.zones` file); reads are not compared from then on (finding C01-kill-in-first-segment-write) -/
+  poisoned : Bool := false
   -- durable
   segs : List (Nat × List Ev)
   index : List (Nat × List Nat)
@@ -208,6 +213,11 @@ def visibleKeys (s : Shard) : List Nat := ((scanRows s).map (·.k)).eraseDups
 def crash (s : Shard) : Shard :=
   { s with mem := [], passives := [], jobs := [], live := [] }
 
+/-- Directories the restart serves: all of them while no `segments.idx` exists, otherwise those
+the index names (`ShardContext::published_segments`). -/
+def published (s : Shard) (dirs : List Nat) : List Nat :=
+  if s.indexExists then dirs.filter (fun d => s.index.any (·.1 == d)) else dirs
+
 /-- `ShardContext::new` on the durable state. -/
 def restart (s : Shard) : Shard :=
   let dirs := sortNat ((s.segs.map (·.1)).eraseDups)
@@ -221,9 +231,21 @@ def restart (s : Shard) : Shard :=
   let openId := if last == 0 then 0 else if lastLen < s.cap then last else last + 1
   let wal := walEnsure s.wal openId
   let openLen := ((wal.filter (·.1 == openId)).flatMap (·.2)).length
-  { s with mem := replay, passives := [], jobs := [], live := dirs, nextL0 := nextL0,
+  { s with mem := replay, passives := [], jobs := [], live := published s dirs, nextL0 := nextL0,
            everSeg := dirs, tainted := false,
            walOpen := openId, walCount := openLen, walOrphan := false, wal := wal }
+
+/-- The head job's directory exists with incomplete files — no readable row — and nothing else of
+the job has happened. -/
+def midWrite (s : Shard) (j : Job) : Shard :=
+  { s with segs := s.segs ++ [(j.seg, [])], poisoned := s.poisoned || !s.indexExists }
+
+/-- Process kill INSIDE the segment write of the head job (`zonewriter.*` points), then restart.
+No job parked at its start: nothing happens. -/
+def crashMid (s : Shard) : Shard :=
+  match s.jobs with
+  | j :: _ => if j.step == 0 && !j.evs.isEmpty then restart (crash (midWrite s j)) else s
+  | [] => s
 
 /-- Clean shutdown as the harness performs it: `flush_all` (manual flush, waits), then WAL
 shutdown. -/
